@@ -1,7 +1,7 @@
 (* C12_FeQ.v — instantiation of the FeArray model with exact rationals, used by the generated
    correspondence case files (vm_compute).  Definitions only. *)
 From Coq Require Import List Arith Bool ZArith QArith Qabs Lia.
-From EFModel Require Import C12_FeShape C12_FeTensor.
+From EFModel Require Import C12_FeShape C12_FeTensor C12_FeDetN.
 Import ListNotations.
 Local Open Scope nat_scope.
 
@@ -91,3 +91,25 @@ Definition agrees_err (vdet : nat -> (nat -> nat -> Q) -> Q)
   let '(k', s', v') := obs in
   if (10 <=? k) && (10 <=? k') then (k =? k') || (k =? 10) || (k' =? 10)
   else (k =? k') && list_eqb s s' && qlist_eqb v v'.
+
+(* reference for the dimensions the source delegates to numpy.linalg (dim > 3): the generic
+   Leibniz determinant / adjugate of C12_FeDetN instantiated with Q *)
+Definition leibnizQ := leibniz_gen Q 0%Q 1%Q Qplus Qmult Qopp.
+Definition adjugateQ := adjugate_gen Q 0%Q 1%Q Qplus Qmult Qopp.
+Definition det_ext (closed : nat -> (nat -> nat -> Q) -> Q) (n : nat) (m : nat -> nat -> Q) : Q :=
+  if n <=? 3 then closed n m else leibnizQ n m.
+Definition inv_ext (closed : nat -> (nat -> nat -> Q) -> nat -> nat -> Q) (n : nat) (m : nat -> nat -> Q) (i j : nat) : Q :=
+  if n <=? 3 then closed n m i j else Qdiv (adjugateQ n m i j) (leibnizQ n m).
+
+(* agreement up to a relative tolerance (floating-point LAPACK results against exact rationals) *)
+Fixpoint qlist_close (tol : Q) (a b : list Q) : bool :=
+  match a, b with
+  | [], [] => true
+  | x :: a', y :: b' => Qle_bool (Qabs (x - y)) (tol * qmax 1 (Qabs x)) && qlist_close tol a' b'
+  | _, _ => false
+  end.
+Definition agrees_tol (tol : Q) (vdet : nat -> (nat -> nat -> Q) -> Q)
+    (vinv : nat -> (nat -> nat -> Q) -> nat -> nat -> Q) (e : expr Q) (obs : nat * list nat * list Q) : bool :=
+  let '(k, s, v) := observe Q (evalQ vdet vinv e) in
+  let '(k', s', v') := obs in
+  (k =? k') && list_eqb s s' && qlist_close tol v v'.
